@@ -3,8 +3,8 @@ import core, gen, frames as F
 
 class C06:
     id = "C06"
-    lean_modules = ["SqModel.Props.C06"]
-    extractors = ["ma_code"]
+    lean_modules = ["SqModel.Props.C06", "SqModel.Proofs.Bridge"]
+    extractors = ["ma_code", "trans"]
     rule = ("all 8192 ID13 fields x {DF5, DF21} x {-U,-R on/off} embedded in random payloads, applied to an "
             "existing row and as creating frame; rows with a squawk hit by every other format. A case is "
             "non-trivial when the row's squawk is present after the frame; distinct = distinct (format, field, cfg).")
